@@ -10,6 +10,7 @@ import (
 	"regexp"
 	"sort"
 	"strconv"
+	"strings"
 	"sync"
 	"time"
 )
@@ -373,4 +374,45 @@ func Shard() (i, n int, worker bool) {
 	}
 	fmt.Sscanf(s, "%d/%d", &i, &n)
 	return i, n, true
+}
+
+// Journal records what the worker is about to run, so that the parent can attribute a crash of the
+// code under test (a panic on a goroutine the harness cannot recover) to a history.
+func Journal(v interface{}) {
+	p := os.Getenv("VERIF_JOURNAL")
+	if p == "" {
+		return
+	}
+	b, _ := json.Marshal(v)
+	os.WriteFile(p, b, 0o644)
+}
+
+// CrashViolation is a helper for Fork's onCrash: it turns a worker crash into a violation whose key is
+// the panic message and whose replay is the journalled history.
+func (r *Run) CrashViolation(shard int, out []byte, journal string) bool {
+	s := string(out)
+	i := strings.Index(s, "panic: ")
+	if i < 0 {
+		i = strings.Index(s, "fatal error: ")
+	}
+	if i < 0 {
+		return false
+	}
+	line := s[i:]
+	if j := strings.IndexByte(line, '\n'); j > 0 {
+		line = line[:j]
+	}
+	// strip addresses / numbers that vary
+	line = regexp.MustCompile(`0x[0-9a-f]+`).ReplaceAllString(line, "0x..")
+	var jr interface{}
+	if b, err := os.ReadFile(journal); err == nil {
+		json.Unmarshal(b, &jr)
+	}
+	tail := s[i:]
+	if len(tail) > 1800 {
+		tail = tail[:1800]
+	}
+	r.Violation("crash of the code under test: "+line, tail, jr)
+	r.Cap(fmt.Sprintf("worker %d crashed; the rest of its shard was not explored", shard))
+	return true
 }
